@@ -9,7 +9,10 @@ From TR Require Import Lib.Base Model.Budget Model.Adaptive Proof.Adaptive.
    limit()), every interleaving of the atomic steps (schedule entries, spurious
    compare_exchange_weak failures included), every decrease function [dec] (the f64
    computation), every smoothing and queue-estimate function of Vegas; also every value a
-   limit() call returned is in bounds. *)
+   limit() call returned is in bounds. [a_max c <= U64MAX] / [v_max c <= U64MAX] say that the
+   limits are usize values: the model adds with saturation at usize::MAX exactly where the code
+   does (AimdController: saturating_add / saturating_mul; Vegas::adjust_limit:
+   saturating_add(1) since /repo 96e4b2b), so max = usize::MAX is inside the statement. *)
 Theorem C13_limit_in_bounds :
   (forall (c : acfg) (dec : Z -> Z) (thr initial : Z) (progs : list (list ct_call))
           (sched : list (nat * bool)),
@@ -21,7 +24,7 @@ Theorem C13_limit_in_bounds :
   /\
   (forall (c : vcfg) (smooth : Z -> Z -> Z) (qest : Z -> Z -> Z -> Z) (initial : Z)
           (progs : list (list vg_call)) (sched : list (nat * bool)),
-      0 <= v_min c -> v_min c <= v_max c ->
+      0 <= v_min c -> v_min c <= v_max c -> v_max c <= U64MAX ->
       Forall (fun s => v_min c <= st_mem s LLim <= v_max c
                        /\ Forall (fun r => r_call r = VgLimit -> v_min c <= r_ret r <= v_max c)
                                  (st_log s))
@@ -29,70 +32,131 @@ Theorem C13_limit_in_bounds :
 Proof. exact limit_in_bounds. Qed.
 Print Assumptions C13_limit_in_bounds.
 
-(* the limit seen by the service (Aimd fed on completion) stays in bounds as well *)
+(* the limit the service compares in_flight with stays in bounds as well, for both algorithms
+   ([aimd_alg]: Aimd fed on completion, a slow success counting as congestion; [vegas_alg]:
+   Vegas fed with the measured latency), after every history of service events *)
 Theorem C13_service_limit_in_bounds :
-  forall (c : acfg) (dec : Z -> Z) (thr initial : Z) (evs : list sev),
-    a_min c <= a_max c -> a_max c <= U64MAX -> 0 <= a_inc c ->
-    Forall (fun s => a_min c <= sv_limit s <= a_max c)
-           (states (sv_st c dec thr) (sv_init c initial) evs).
+  (forall (c : acfg) (dec : Z -> Z) (thr initial : Z) (evs : list sev),
+      a_min c <= a_max c -> a_max c <= U64MAX -> 0 <= a_inc c ->
+      Forall (fun s => a_min c <= sv_limit s <= a_max c)
+             (states (sv_st (aimd_alg c dec thr)) (sv_init (aimd_init c initial)) evs))
+  /\
+  (forall (c : vcfg) (smooth : Z -> Z -> Z) (qest : Z -> Z -> Z -> Z) (initial : Z)
+          (evs : list sev),
+      0 <= v_min c -> v_min c <= v_max c -> v_max c <= U64MAX ->
+      Forall (fun s => v_min c <= sv_limit s <= v_max c)
+             (states (sv_st (vegas_alg c smooth qest)) (sv_init (vegas_init c initial)) evs)).
 Proof. exact service_limit_in_bounds. Qed.
 Print Assumptions C13_service_limit_in_bounds.
 
-(* in_flight = number of call futures created and not yet finished / failed / panicked /
+(* The in-flight statements hold for EVERY algorithm [A : alg] (any pair of feedback
+   functions: AIMD, Vegas, the Algorithm enum, anything else) and every initial state of it.
+
+   in_flight = number of call futures created and not yet finished / failed / panicked /
    dropped ([sv_live]: one entry per such call), after every history of readiness checks,
    calls (also without a readiness check, also with a panicking inner.call()), polls,
-   completions (ok | err | panic), drops, clock advances and inner-readiness changes *)
+   completions (ok | err | panic), drops, clock advances, inner-readiness changes and feedback
+   reaching the shared algorithm from elsewhere *)
 Theorem C13_inflight_exact :
-  forall (c : acfg) (dec : Z -> Z) (thr initial : Z) (evs : list sev),
-    a_min c <= a_max c -> a_max c <= U64MAX -> 0 <= a_inc c ->
+  forall (A : alg) (a0 : ast) (evs : list sev),
     Forall (fun s => sv_inflight s = Z.of_nat (length (sv_live s))
                      /\ NoDup (map fst (sv_live s)))
-           (states (sv_st c dec thr) (sv_init c initial) evs).
+           (states (sv_st A) (sv_init a0) evs).
 Proof. exact inflight_exact. Qed.
 Print Assumptions C13_inflight_exact.
+
+(* the same at the level of what Model.Adaptive.run_script prints for a service script: every
+   (code, in_flight, limit) triple of the trace is read off a reachable state in which
+   in_flight is the number of live call futures *)
+Theorem C13_trace_inflight_exact :
+  forall (A : alg) (a0 : ast) (evs : list sev),
+    Forall (fun w => exists s, In s (states (sv_st A) (sv_init a0) evs)
+                               /\ snd (fst w) = Z.of_nat (length (sv_live s))
+                               /\ snd w = sv_limit s)
+           (chunk3 (snd (sv_trace A (sv_init a0) evs))).
+Proof. exact trace_inflight_exact. Qed.
+Print Assumptions C13_trace_inflight_exact.
 
 (* the same count read off the history of results: +1 per call future created (code 20),
    -1 per poll that returned Ok (31) / Err (32) / panicked (35), -1 per drop of a live
    future (50), nothing else ([code_delta]) *)
 Theorem C13_inflight_history :
-  forall (c : acfg) (dec : Z -> Z) (thr initial : Z) (evs : list sev),
-    sv_inflight (fst (sv_run c dec thr (sv_init c initial) evs))
-    = sumz (map code_delta (snd (sv_run c dec thr (sv_init c initial) evs))).
+  forall (A : alg) (a0 : ast) (evs : list sev),
+    sv_inflight (fst (sv_run A (sv_init a0) evs))
+    = sumz (map code_delta (snd (sv_run A (sv_init a0) evs))).
 Proof. exact inflight_history_init. Qed.
 Print Assumptions C13_inflight_history.
 
 Theorem C13_zero_when_idle :
-  forall (c : acfg) (dec : Z -> Z) (thr initial : Z) (evs : list sev),
-    a_min c <= a_max c -> a_max c <= U64MAX -> 0 <= a_inc c ->
+  forall (A : alg) (a0 : ast) (evs : list sev),
     Forall (fun s => sv_live s = [] -> sv_inflight s = 0)
-           (states (sv_st c dec thr) (sv_init c initial) evs).
+           (states (sv_st A) (sv_init a0) evs).
 Proof. exact zero_when_idle. Qed.
 Print Assumptions C13_zero_when_idle.
+
+(* the end of every service script (all remaining futures dropped, inner service ready, a
+   probe caller checks readiness): whatever the history, in_flight is 0 and the probe is
+   admitted -- Ready (11) -- unless the limit itself is 0 *)
+Theorem C13_script_probe :
+  forall (A : alg) (a0 : ast) (evs : list sev),
+    exists tr lim,
+      sv_script A a0 evs = tr ++ [if lim <=? 0 then 13 else 11; 0; lim]
+      /\ tr = snd (sv_trace A (sv_init a0) evs).
+Proof. exact script_probe. Qed.
+Print Assumptions C13_script_probe.
 
 (* poll_ready is Ready whenever fewer than limit calls are in flight and the inner service
    is ready (in every reachable state, counted in live call futures; and for any state in
    terms of the counter) *)
 Theorem C13_ready_when_below :
-  forall (c : acfg) (dec : Z -> Z) (thr initial : Z) (evs : list sev),
-    a_min c <= a_max c -> a_max c <= U64MAX -> 0 <= a_inc c ->
+  forall (A : alg) (a0 : ast) (evs : list sev),
     Forall (fun s => Z.of_nat (length (sv_live s)) < sv_limit s -> sv_inner s = 0 ->
-                     sv_step c dec thr s EReady = (s, 11))
-           (states (sv_st c dec thr) (sv_init c initial) evs).
+                     sv_step A s EReady = (s, 11))
+           (states (sv_st A) (sv_init a0) evs).
 Proof. exact ready_when_below_live. Qed.
 Print Assumptions C13_ready_when_below.
 
 Theorem C13_ready_when_counter_below :
-  forall (c : acfg) (dec : Z -> Z) (thr : Z) (s : svc),
+  forall (A : alg) (s : svc),
     sv_inflight s < sv_limit s -> sv_inner s = 0 ->
-    sv_step c dec thr s EReady = (s, 11).
+    sv_step A s EReady = (s, 11).
 Proof. exact ready_when_below. Qed.
 Print Assumptions C13_ready_when_counter_below.
 
 (* a readiness check that sees in_flight >= limit returns Pending (code 13: it wakes itself)
-   and changes nothing: that caller is not admitted *)
+   and changes nothing: that caller is not admitted; in every reachable state this is a check
+   made with limit (or more) calls in flight *)
 Theorem C13_pending_when_at_limit :
-  forall (c : acfg) (dec : Z -> Z) (thr : Z) (s : svc),
+  forall (A : alg) (s : svc),
     sv_limit s <= sv_inflight s ->
-    sv_step c dec thr s EReady = (s, 13).
+    sv_step A s EReady = (s, 13).
 Proof. exact pending_when_at_limit. Qed.
 Print Assumptions C13_pending_when_at_limit.
+
+Theorem C13_pending_when_at_limit_live :
+  forall (A : alg) (a0 : ast) (evs : list sev),
+    Forall (fun s => sv_limit s <= Z.of_nat (length (sv_live s)) ->
+                     sv_step A s EReady = (s, 13))
+           (states (sv_st A) (sv_init a0) evs).
+Proof. exact pending_when_at_limit_live. Qed.
+Print Assumptions C13_pending_when_at_limit_live.
+
+(* the counter under threads (Model.Adaptive part (c): clones of one service on worker
+   threads, every access to in_flight / current_limit / the controller's limit one atomic step,
+   all interleavings, spurious compare-exchange failures included):
+   in_flight = futures created - futures finished, a future counting as created from the
+   fetch_add of its call() and as finished from its guard's fetch_sub ([tv_in_progress] is the
+   number of calls past their fetch_add minus the number of finishing futures past their
+   fetch_sub); at quiescence: completed call()s minus completed finishes. The limit stays in
+   bounds under the same interleavings. (Proof.Adaptive.nonatomic_release_refuted: with a
+   load;store release the equation fails.) *)
+Theorem C13_inflight_exact_threads :
+  forall (c : acfg) (dec : Z -> Z) (initial : Z) (progs : list (list tv_call))
+         (sched : list (nat * bool)),
+    a_min c <= a_max c -> a_max c <= U64MAX -> 0 <= a_inc c ->
+    Forall (fun s => st_mem s LInf = tv_created s - tv_finished s + tv_in_progress s
+                     /\ (quiescent s -> st_mem s LInf = tv_created s - tv_finished s)
+                     /\ a_min c <= st_mem s LLim <= a_max c)
+           (states (step (tv_prog c dec)) (init_state (tv_mem c initial) progs) sched).
+Proof. exact tv_inflight_exact. Qed.
+Print Assumptions C13_inflight_exact_threads.
